@@ -54,6 +54,24 @@ def pairs(tier):
             add('rw/mirrorset/%s/%s' % (n, op), [A(V('vc'), B(op, l(), r()))], [A(V('vc'), B(mirror, r(), l()))])
         neg = {'<': '>=', '>': '<=', '<=': '>', '>=': '<', '==': '!=', '!=': '=='}[op]
         add('rw/negop/%s/%s' % (n, op), [If(B(op, l(), r()), T(), E())], [If(B(neg, l(), r()), E(), T())])
+    # the same three rewrites with branches that are out of reach of a relative branch (then/else blocks of more than 127 bytes): the
+    # long-branch repair negates the condition, each comparison kind has its own negation
+    def big(k): return Block([st for _ in range(11) for st in (A(V('vc'), V('va'), '+='), A(V('vc'), V('vb'), '^='))] + [A(V('sc'), C(k))])
+    for (n, l, r), op in itertools.product(families2.cond_pairs(), families2.CMPS):
+        if tier == 'quick' and not stable_pick('rw/far/%s/%s' % (n, op), 100, 20): continue
+        mirror = {'<': '>', '>': '<', '<=': '>=', '>=': '<=', '==': '==', '!=': '!='}[op]
+        neg = {'<': '>=', '>': '<=', '<=': '>', '>=': '<', '==': '!=', '!=': '=='}[op]
+        add('rw/far/ifneg/%s/%s' % (n, op), [If(B(op, l(), r()), big(1), big(2))], [If(Un('!', B(op, l(), r())), big(2), big(1))])
+        add('rw/far/mirror/%s/%s' % (n, op), [If(B(op, l(), r()), big(1), E())], [If(B(mirror, r(), l()), big(1), E())])
+        add('rw/far/negop/%s/%s' % (n, op), [If(B(op, l(), r()), big(1))], [If(B(neg, l(), r()), Empty(), big(1))])
+        add('rw/far/or/%s/%s' % (n, op), [If(B('||', B(op, l(), r()), V('sb')), big(1))], [If(B('||', B(mirror, r(), l()), V('sb')), big(1))])
+    for op, k0 in (('<=', 2), ('<', 3), ('!=', 3), ('>=', 254), ('>', 253)):
+        step = '++' if op in ('<=', '<', '!=') else '--'
+        i0 = 1 if step == '++' else 255
+        add('rw/far/forwhile/%s' % op, [For(Assign(V('vd'), '=', C(i0)), B(op, V('vd'), C(k0)), Inc(step, False, V('vd')), big(1))],
+            [A(V('vd'), C(i0)), While(B(op, V('vd'), C(k0)), Block([big(1), ExprS(Inc(step, False, V('vd')))]))])
+        add('rw/far/dowhile/%s' % op, [A(V('vd'), C(i0)), DoWhile(Block([big(1), ExprS(Inc(step, False, V('vd')))]), B(op, V('vd'), C(k0)))],
+            [A(V('vd'), C(i0)), While(C(1), Block([big(1), ExprS(Inc(step, False, V('vd'))), If(Un('!', B(op, V('vd'), C(k0))), Break())]))])
     # for vs while
     inc = lambda n: ExprS(Inc('++', False, V(n)))
     for n, init, cnd, upd, body in (
@@ -76,7 +94,9 @@ def pairs(tier):
         for n, mk in (('ld', lambda i: [A(V('va'), Index('arr', i))]), ('st', lambda i: [A(Index('arr', i), V('va'))]), ('add', lambda i: [A(V('vb'), B('+', V('va'), Index('arr', i)))]),
                       ('inc', lambda i: [ExprS(Inc('++', False, Index('arr', i)))]), ('cmp', lambda i: [If(B('<', Index('arr', i), V('va')), A(V('vc'), C(1)), A(V('vc'), C(2)))]),
                       ('cass', lambda i: [A(Index('arr', i), V('va'), '+=')]), ('w_ld', lambda i: [A(V('wa'), Index('warr', i))]), ('w_st', lambda i: [A(Index('warr', i), V('wa'))]),
-                      ('w_cass', lambda i: [A(Index('warr', i), V('wb'), '+=')])):
+                      ('w_cass', lambda i: [A(Index('warr', i), V('wb'), '+=')]), ('w_hi', lambda i: [A(V('va'), B('>>', Index('warr', i), C(8)))]), ('w_lo', lambda i: [A(V('va'), Index('warr', i))]),
+                      ('w_hi_cmp', lambda i: [If(B('==', B('>>', Index('warr', i), C(8)), V('va')), A(V('vc'), C(1)), A(V('vc'), C(2)))]), ('w_cmp', lambda i: [If(B('==', Index('warr', i), V('wa')), A(V('vc'), C(1)), A(V('vc'), C(2)))]),
+                      ('w_hi_add', lambda i: [A(V('vb'), B('+', V('va'), B('>>', Index('warr', i), C(8))))]), ('w_inc', lambda i: [ExprS(Inc('++', False, Index('warr', i)))])):
             if n.startswith('w_') and k == 3: continue
             add('rw/regidx/%s/%s=%d' % (n, reg, k), mk(V(reg)), mk(C(k)), assume={reg: k})
     # the mirrored comparison / register-index rewrites inside contexts that consult cached flag and register knowledge afterwards
